@@ -102,6 +102,8 @@ type c14Run struct {
 	Inconcl  string
 	ToolErr  string
 	HangDump string // stderr of the filter after SIGQUIT when the tool guard fired
+	Cur      string // "<request kind>:<state class>" of the exchange in progress (label of a hang)
+	Queues   int    // transfer queues the filter has created so far (model; only used for labels)
 	Counters map[string]int64
 }
 
@@ -147,8 +149,10 @@ func c14ClipInts(v []int) string {
 // exchange sends one clean/smudge request and parses the answer.
 func (e *c14Env) exchange(p *c14Proc, command, path string, canDelay bool, payload []byte, scheme string) c14Answer {
 	p.send(c14Request(command, path, canDelay, payload, c14Chunks(len(payload), scheme)))
+	p.waiting(true)
 	a := p.readFilterAnswer()
 	p.sendWait()
+	p.waiting(false)
 	return a
 }
 
@@ -252,6 +256,55 @@ func (e *c14Env) contentClass(c []byte, pl c14Payload) string {
 	return "other"
 }
 
+// runProgramR is runProgram with re-execution when a tool guard fired without a decidable dump (machine overloaded).
+func (e *c14Env) runProgramR(rootIdx int, ops []c14Op) c14Run {
+	run := e.runProgram(rootIdx, ops)
+	retried := int64(0)
+	for try := 0; try < 2 && strings.HasPrefix(run.Inconcl, "filter-process guard timeout"); try++ {
+		first, dump := run.Inconcl, run.HangDump
+		run = e.runProgram(rootIdx, ops)
+		retried++
+		if run.Inconcl == "" {
+			fmt.Printf("note: guard timeout not reproduced on re-execution: %s\n", c14Clip(first, 300))
+		}
+		if try == 0 {
+			fmt.Printf("note: goroutine dump of the filter at the guard timeout:\n%s\n", c14Clip(c14DumpSummary(dump), 4000))
+		}
+	}
+	if run.Counters != nil && retried > 0 {
+		run.Counters["guard-timeout-reexecutions"] += retried
+	}
+	return run
+}
+
+// c14DumpSummary lists the goroutines of a dump with their states and their git-lfs frames.
+func c14DumpSummary(d string) string {
+	var b strings.Builder
+	for _, g := range c14ParseDump(d) {
+		if g.ID == 0 {
+			continue
+		}
+		if ok, known := c14SystemStates[g.State]; known && ok {
+			continue
+		}
+		var fr []string
+		for _, f := range g.Frames {
+			if strings.Contains(f, "git-lfs/v3/") || strings.HasPrefix(f, "os/signal") || strings.HasPrefix(f, "net/http") {
+				i := strings.Index(f, "git-lfs/v3/")
+				if i >= 0 {
+					f = f[i+len("git-lfs/v3/"):]
+				}
+				fr = append(fr, strings.SplitN(f, "(0x", 2)[0])
+			}
+		}
+		if len(fr) > 4 {
+			fr = fr[:4]
+		}
+		fmt.Fprintf(&b, "  goroutine %d [%s]: %s\n", g.ID, g.State, strings.Join(fr, " <- "))
+	}
+	return b.String()
+}
+
 // runProgram executes root + ops on a fresh process in a fresh repository and evaluates every oracle clause.
 func (e *c14Env) runProgram(rootIdx int, ops []c14Op) (r c14Run) {
 	r.Counters = map[string]int64{}
@@ -279,11 +332,26 @@ func (e *c14Env) runProgram(rootIdx int, ops []c14Op) (r c14Run) {
 			for _, o := range ops {
 				names = append(names, e.opString(o))
 			}
-			r.Inconcl = fmt.Sprintf("filter-process guard timeout (%v) in [root %s] %s", c14Guard, root.Name, strings.Join(names, " ; "))
+			prog := fmt.Sprintf("[root %s] %s", root.Name, strings.Join(names, " ; "))
 			r.HangDump = p.stderr.String()
 			r.Viols = nil
+			r.State.Dead = true
+			// the goroutine dump - not the elapsed time - decides: a process in which every goroutine is parked on a
+			// channel/sync operation and the main goroutine sits inside the filter loop can never answer
+			if dead, where, why := c14ClassifyDump(r.HangDump); dead {
+				r.State.Bad = true
+				r.Counters["clause:answers-every-request(no deadlock)"]++
+				r.Viols = []vx.Violation{{Fingerprint: "C14:hang:" + r.Cur,
+					Msg: fmt.Sprintf("the filter never answers (%s): goroutine dump shows a deadlock - main goroutine parked in commands.%s, no goroutine running, runnable, sleeping or waiting for IO. Program: %s\n%s",
+						r.Cur, where, prog, c14DumpSummary(r.HangDump))}}
+				r.Outcome = "HANG(deadlock in " + where + ") at " + r.Cur
+				r.Inconcl = ""
+			} else {
+				r.Inconcl = fmt.Sprintf("filter-process guard timeout in %s at %s (dump not a deadlock: %s)", prog, r.Cur, why)
+			}
 		}
 	}()
+	r.Cur = "handshake:-"
 	bad, died := p.handshake(root.Delay)
 	r.Evals++
 	if died {
@@ -329,6 +397,10 @@ func (e *c14Env) runProgram(rootIdx int, ops []c14Op) (r c14Run) {
 			if op.Path == "c" && op.Kind == "clean" {
 				lastLabel += ":worktree-file-exists"
 			}
+			r.Cur = cmd + ":" + pl.Group
+			if command == "smudge" && root.Delay && !r.State.QAlive {
+				r.Queues++
+			}
 			ref := e.oneShot(root, storeIn, command, op.Path, op.Payload)
 			a := e.exchange(p, command, op.Path, canDelay, pl.Bytes, op.Scheme)
 			what := fmt.Sprintf("request %d %s [root %s, store {%s}]", i+1, e.opString(op), root.Name, e.storeLabel(storeIn))
@@ -373,6 +445,7 @@ func (e *c14Env) runProgram(rootIdx int, ops []c14Op) (r c14Run) {
 	}
 	if !r.State.Dead {
 		// EOF: Git is done; the filter must exit 0 and must not have written anything beyond its last answer.
+		r.Cur = "eof:-"
 		code, stray := p.finish()
 		r.Evals++
 		r.Counters["clause:exit-0-on-eof"]++
@@ -402,7 +475,7 @@ func (e *c14Env) runFinish(r *c14Run, p *c14Proc, root c14Root, repo string, rec
 	retrieved, rounds := 0, 0
 	maxRounds := 2*len(start) + 3
 	var log []string
-	emptied := false
+	emptied, qNil := false, false
 	var lastForm string
 	for !r.State.Dead {
 		if rounds >= maxRounds {
@@ -411,9 +484,15 @@ func (e *c14Env) runFinish(r *c14Run, p *c14Proc, root c14Root, repo string, rec
 			break
 		}
 		rounds++
+		r.Cur = "list:first-queue"
+		if r.Queues > 1 {
+			r.Cur = "list:later-queue"
+		}
 		p.send(c14Request("list_available_blobs", "", false, nil, nil))
+		p.waiting(true)
 		a := p.readListAnswer()
 		p.sendWait()
+		p.waiting(false)
 		r.Evals++
 		r.Counters["clause:well-formed-exchange"]++
 		log = append(log, c14AnswerString(a))
@@ -453,6 +532,14 @@ func (e *c14Env) runFinish(r *c14Run, p *c14Proc, root c14Root, repo string, rec
 			pl := e.payloads[plIdx]
 			store := e.scanStore(repo)
 			ref := e.oneShot(root, store, "smudge", path, plIdx)
+			r.Cur = "retrieval:" + pl.Group
+			if pl.Group == "ptr-download-fails" {
+				qNil = true // announced although its transfer cannot have succeeded: a left-over, the filter dropped its queue
+			}
+			if qNil && root.Delay {
+				r.Queues++ // the retrieval re-creates the queue
+				qNil = false
+			}
 			ans := e.exchange(p, "smudge", path, false, nil, "mixed")
 			r.Counters["clause:retrieval-right-content"]++
 			what := fmt.Sprintf("retrieval of announced blob %s (delayed with payload %s) [root %s, list round %d]", path, pl.Name, root.Name, rounds)
@@ -524,7 +611,7 @@ func (s *c14Search) run(x *vx.X) vx.Result {
 		}
 		prog = append(prog, s.ops[c-1])
 	}
-	return s.toResult(root, prog, s.e.runProgram(root, prog))
+	return s.toResult(root, prog, s.e.runProgramR(root, prog))
 }
 
 func (s *c14Search) toResult(root int, prog []c14Op, r c14Run) vx.Result {
@@ -675,23 +762,7 @@ func (s *c14Search) bfs(deadline time.Time, workers int) (*vx.Stats, c14Info) {
 					for _, o := range prog {
 						ops = append(ops, s.ops[o])
 					}
-					run := s.e.runProgram(t.node.root, ops)
-					retried := int64(0)
-					for try := 0; try < 2 && strings.HasPrefix(run.Inconcl, "filter-process guard timeout"); try++ {
-						// a tool guard fired (machine overloaded?): re-execute; a persistent timeout stays inconclusive
-						first, dump := run.Inconcl, run.HangDump
-						run = s.e.runProgram(t.node.root, ops)
-						retried++
-						if run.Inconcl == "" {
-							fmt.Printf("note: guard timeout not reproduced on re-execution: %s\n", c14Clip(first, 300))
-						}
-						if try == 0 {
-							fmt.Printf("note: goroutine dump of the filter at the guard timeout:\n%s\n", c14Clip(dump, 12000))
-						}
-					}
-					if run.Counters != nil && retried > 0 {
-						run.Counters["guard-timeout-reexecutions"] += retried
-					}
+					run := s.e.runProgramR(t.node.root, ops)
 					res := s.toResult(t.node.root, ops, run)
 					res.Points = append(s.points(t.node.root, prog), vx.Point{K: vx.Input, N: len(s.ops) + 1, C: 0})
 					out[i] = done{task: t, res: res, run: run}
